@@ -13,6 +13,9 @@ def cases(tier, seed):
                 yield dict(seed=seed * 10 + s, max_depth=depth, algo=algo, labels=[0, 1] if s % 2 == 0 else ["no", "yes"], base="logreg")
     for depth in (2, 3):
         yield dict(seed=1, max_depth=depth, algo="none", labels=[3, 7], base="stump")
+    # non-default stopping rules: nodes with fewer rows than min_samples_split exist (as leaves) and have to answer like every other node
+    for s, mss in enumerate((3, 6, 12, 50)):
+        yield dict(seed=seed * 10 + s, max_depth=4, algo="auto" if s % 2 else "none", labels=[0, 1], base="logreg", min_samples_split=mss)
     # single-precision features: thresholds placed on a training row's own probability ('intercept_sort_always') are exact ties in float32,
     # predict_proba and decision_path have to break them the same way
     for s in range(3 if tier == "quick" else 8):
@@ -44,7 +47,8 @@ def check(c):
     if c.get("dtype"):
         X = X.astype(c["dtype"])
     y = numpy.array(c["labels"], dtype=object if isinstance(c["labels"][0], str) else None)[yb]
-    m = DecisionTreeLogisticRegression(estimator=est, max_depth=c["max_depth"], fit_improve_algo=c["algo"], min_samples_leaf=2)
+    m = DecisionTreeLogisticRegression(estimator=est, max_depth=c["max_depth"], fit_improve_algo=c["algo"], min_samples_leaf=2,
+                                       min_samples_split=c.get("min_samples_split", 2))
     if m.fit(X, y) is not m:
         return dict(**{"class": "fit-returns"}, what="fit does not return self")
     Q = numpy.vstack([X, (rs.randn(30, 2) * 2).astype(X.dtype)]) if c["base"] != "stump" else X
